@@ -1,9 +1,9 @@
 # ---------------------------------------------------------------- C08 XML outputs well-formed
 PROPS["C08"] = {
     "level": "proof",
-    "explanation": "The escape-on-output helpers every XML writer uses for text and attribute values (mmd_print_source_opml/_itmz, mmd_print_char_opendocument, mmd_print_char_html as used by html.c/epub.c) are run unmodified on ALL 256 bytes x flags into the ghost sink and judged by an XML 1.0 reference scanner (C04/esc_spec.h): output is well-formed character data, and in the form used inside attribute values contains no element, no raw \" and & only as a reference (OPML/ITMZ additionally no literal TAB/LF/CR).  The string printers are proved to pass every byte through the escaper once, in order, for strings of any length.  The OpenDocument raw/math exporters on one-token trees and the link/image attribute construction (url/title <= 2 symbolic bytes, markup reference scanner C08/markup_spec.h) are bounded units, reported separately.",
+    "explanation": "The escape-on-output helpers every XML writer uses for text and attribute values (mmd_print_source_opml/_itmz, mmd_print_char_opendocument, mmd_print_char_html as used by html.c/epub.c) are run unmodified on ALL 256 bytes x flags into the ghost sink and judged by an XML 1.0 reference scanner (C04/esc_spec.h): output is well-formed character data, and in the form used inside attribute values contains no element, no raw \" and & only as a reference (OPML/ITMZ additionally no literal TAB/LF/CR).  The string printers are proved to pass every byte through the escaper once, in order, for strings of any length.  The OpenDocument raw/math exporters on one-token trees and the link/image attribute construction (url/title <= 2 symbolic bytes, markup reference scanner C08/markup_spec.h) are bounded units, reported separately.  Structural units: taint_{html,odf}_{link,image} and taint_epub_package_* (source-derived strings -- URL, title, attribute values, alt text, metadata values -- are written into the markup only through the escaper; raw DString primitives by contract with precondition 'not tainted'; the EPUB unit runs HASH_FIND_STR on a real one-entry uthash table) and str_calls_* (the string printers call nothing but the per-character escaper).",
     "slice": "mmd_print_source_opml, mmd_print_source_itmz, mmd_print_char_opendocument, mmd_print_string_opendocument, mmd_print_char_html, mmd_print_string_html (proof); mmd_export_token_opendocument_raw/_math, mmd_export_link_opendocument, mmd_export_image_opendocument (bounded)",
-    "not_reached": "well-formedness of a complete document (balanced elements over an unbounded token tree); EPUB package/nav printers (epub.c) beyond their use of mmd_print_string_html; zip packaging",
+    "not_reached": "well-formedness of a complete document (balanced elements over an unbounded token tree); EPUB nav printer and the element structure of the package document (epub.c) beyond 'metadata values only through mmd_print_string_html'; zip packaging",
     "trusted_base": ["cbmc/goto-cc/goto-instrument 6.11.0 (MiniSat2)", "lib/ds_sink.c: the DString specification as executable ghost code (C19)", "C04/esc_spec.h, C08/markup_spec.h reference scanners for XML 1.0 character data / markup fragments"],
     "assumptions": ["source text is free of C0 control characters other than those named per unit (the property's quantifier)", "delimiter tokens carry the literal lexemes of lexer.re (re2c scanner outside CBMC's reach)"],
 }
